@@ -110,7 +110,7 @@ func Serve(run func(phase string, i int) Result) {
 		os.Exit(3)
 	}
 	for i := *flagFrom; i < *flagTo; i++ {
-		fmt.Fprintf(f, "S %d\n", i)
+		fmt.Fprintf(f, "S %d %d\n", i, selfCPU())
 		res := run(*flagPhase, i)
 		res.I = i
 		b, err := json.Marshal(res)
@@ -363,17 +363,36 @@ func runOne(o Opts, from, to int, journal string) (Death, bool) {
 	go func() { done <- cmd.Wait() }()
 	var err error
 	timedOut := false
-	select {
-	case err = <-done:
-	case <-time.After(o.Timeout):
-		timedOut = true
-		// goroutine dump first, then kill the whole group
-		_ = cmd.Process.Signal(syscall.SIGQUIT)
+	// The watchdog is per case, not per batch: it restarts whenever the worker's journal grows
+	// (a case started or finished), so a batch that is slow but progressing never times out and
+	// a case that is stuck gets the whole allowance.
+	lastProgress := time.Now()
+	lastSize := int64(-1)
+	tick := time.NewTicker(time.Second)
+	defer tick.Stop()
+wait:
+	for {
 		select {
 		case err = <-done:
-		case <-time.After(10 * time.Second):
-			_ = syscall.Kill(-cmd.Process.Pid, syscall.SIGKILL)
-			err = <-done
+			break wait
+		case <-tick.C:
+			if fi, serr := os.Stat(journal); serr == nil && fi.Size() != lastSize {
+				lastSize = fi.Size()
+				lastProgress = time.Now()
+			}
+			if time.Since(lastProgress) < o.Timeout {
+				continue
+			}
+			timedOut = true
+			// goroutine dump first, then kill the whole group
+			_ = cmd.Process.Signal(syscall.SIGQUIT)
+			select {
+			case err = <-done:
+			case <-time.After(10 * time.Second):
+				_ = syscall.Kill(-cmd.Process.Pid, syscall.SIGKILL)
+				err = <-done
+			}
+			break wait
 		}
 	}
 	if err == nil && !timedOut {
@@ -386,7 +405,33 @@ func runOne(o Opts, from, to int, journal string) (Death, bool) {
 	if ps := cmd.ProcessState; ps != nil {
 		d.CPU = ps.UserTime() + ps.SystemTime()
 	}
+	if timedOut {
+		// CPU and wall of the case that did not finish (the journal records the process CPU at its start)
+		d.Wall = time.Since(lastProgress)
+		if b, rerr := os.ReadFile(journal); rerr == nil {
+			lines := strings.Split(strings.TrimSpace(string(b)), "\n")
+			for j := len(lines) - 1; j >= 0; j-- {
+				if strings.HasPrefix(lines[j], "S ") {
+					var c int
+					var cpu0 int64
+					if n, _ := fmt.Sscanf(lines[j][2:], "%d %d", &c, &cpu0); n == 2 && time.Duration(cpu0) <= d.CPU {
+						d.CPU -= time.Duration(cpu0)
+					}
+					break
+				}
+			}
+		}
+	}
 	return d, true
+}
+
+// selfCPU is the CPU time (user+system) this process has used so far, in nanoseconds.
+func selfCPU() int64 {
+	var ru syscall.Rusage
+	if err := syscall.Getrusage(syscall.RUSAGE_SELF, &ru); err != nil {
+		return 0
+	}
+	return ru.Utime.Nano() + ru.Stime.Nano()
 }
 
 type limitedWriter struct {
